@@ -46,6 +46,7 @@ class BalWorld(object):
     self.last_active = None
     self.leave_since_settle = False
     self.had_down = False
+    self.n_node_down = 0
     self.specs = {}
     self.steady = None
     self.cid = 100000
@@ -411,6 +412,23 @@ class BalWorld(object):
     props = {SinkProperties.Label: 'svc', SinkProperties.ServiceInterface: None}
     self.disp = MessageDispatcher(None, tsp, 5.0, props)
     self.lb = self.disp.next_sink.next_sink
+    if self.kind == 'aperture':
+      # load-driven growth (an expansion decided by _AdjustAperture) never
+      # starts from an active set that is already at max_size, whatever the
+      # state of the members' channels
+      import sys as _sys
+      orig_expand = self.lb._TryExpandAperture
+      max_size = cfg['aperture']['max_size']
+
+      def expand(*a, **kw):
+        if _sys._getframe(1).f_code.co_name == '_AdjustAperture':
+          REC.probe('load_driven_expansion')
+          if self.lb._size >= max_size and self.lb._idle_endpoints:
+            REC.violation('C06', 'grew_beyond_max',
+                          'load-driven growth from %d active members, max_size %d' % (self.lb._size, max_size),
+                          {'load_driven': True})
+        return orig_expand(*a, **kw)
+      self.lb._TryExpandAperture = expand
     self.open_ar = self.disp.Open()
     self.loop.on_advance = self.settle
     gevent.sleep(0.0005)
